@@ -400,7 +400,8 @@ def rule_atl1(A: Analysis, rep):
     if "older" not in var_of.values():
         rep.bad("ATL1", "at-least decision", fi.node, "should_run no longer consults git ancestry for --at-least")
         return
-    mism, n_asg = truth_table(pairs, var_of, ref)
+    # `flag == commit_hash` with exactly one of the two None is not a state: x == y ∧ x is None ⇒ y is None
+    mism, n_asg = truth_table(pairs, var_of, ref, consistent=lambda a: not (a["same"] and a["noflag"] != a["nullcommit"]))
     rep.check(mism is None, "ATL1", "at-least decision", fi.node,
               "run iff no version ∨ (flag ∧ (null commit ∨ (≠ commit ∧ version is a strict ancestor))) — compared on %d assignments" % n_asg, mism or "")
     # ensure precedes, memo invalidated on the re-run path
@@ -448,7 +449,7 @@ def rule_one1(A: Analysis, rep):
     rep.check(bool(en) and all(g.all_paths_pass(g.entry, r, en, skip_labels=skip) for r in reads) and bool(reads), "ONE1", "get_output_path reads the selection", gp.node, "",
               "get_output_path reads the version before it was selected")
     r = [x for x in walk_local(gp.node) if isinstance(x, ast.Return) and x.value is not None and "with_name" in norm(x.value)]
-    rep.check(len(r) == 1 and A.xtext(r[0].value, gp, stop=["unversioned_path"]) == "unversioned_path.with_name(f.task_output_dir(self.identifier, version=self._most_relevant_version))", "ONE1", "path of the selected version", gp.node,
+    rep.check(len(r) == 1 and A.xtext(r[0].value, gp, stop=["unversioned_path"]) == "unversioned_path.with_name(f.task_output_dir(self.identifier, self._most_relevant_version))", "ONE1", "path of the selected version", gp.node,
               "", "get_output_path does not name the selected version's directory")
     wh = A.fn("lib.path.where")
     ok = any(isinstance(c, ast.Call) and A.res.is_call_to(c, "TaskType.get_output_path") for c in walk_local(wh.node))
@@ -540,6 +541,18 @@ def rule_flg1(A: Analysis, rep):
     rep.check(ok, "FLG1", "unknown commit rejected", rm.node, "", "an unresolvable commit symbol is not rejected before it is used")
     ug = A.fn("context.Context.uses_git")
     st = [s for s in walk_local(ug.node) if isinstance(s, ast.Assign) and norm(s.targets[0]) == "self._uses_git"]
-    rep.check(len(st) == 1 and A.dnf(st[0].value, True, ug) == [frozenset({("t(self._config_file.disable_git)", False), ("t(self._git.is_used())", True)})], "FLG1", "uses_git = ¬disable_git ∧ git repo", ug.node, "",
-              "Context.uses_git is `%s`" % (norm(st[0].value) if st else "?"))
+    # the value stored, over every store and the condition it is reached under (one conjunction, or an if/else)
+    gu = A.cfg(ug, "plain")
+    upairs = []
+    for s_ in st:
+        for c in A.path_guards(gu, gu.entry, gu.node_of(s_), ug):
+            c = frozenset(a for a in c if a[0] in ("t(self._config_file.disable_git)", "t(self._git.is_used())"))   # the memo test is not part of the value
+            for pol in (True, False):
+                for d in A.dnf(s_.value, pol, ug):
+                    if not any((a, not p_) in c for a, p_ in d):
+                        upairs.append((c | d, pol))
+    mism, _n = truth_table(upairs, {"t(self._config_file.disable_git)": "disabled", "t(self._git.is_used())": "repo"},
+                           lambda a: (not a["disabled"]) and a["repo"]) if st else ("no store", 0)
+    rep.check(bool(st) and mism is None, "FLG1", "uses_git = ¬disable_git ∧ git repo", ug.node, "",
+              "Context.uses_git is `%s`: %s" % (" / ".join(norm(x.value) for x in st) if st else "?", mism))
     rep.expect_min("FLG1", 7)
